@@ -381,6 +381,9 @@ func (r *aRun) evaluate(out *Outcome) {
 	out.probe("records_fully_read", len(v.full))
 	out.probe("records_on_disk_at_end", len(v.onDisk))
 	out.probe("timer_ties", out.Res.TimerTies)
+	if out.Res.SpawnStalls > 0 {
+		out.fault("slow_goroutine_start", out.Res.SpawnStalls)
+	}
 	if r.fs != nil {
 		out.probe("fs_ops", r.fs.OpCount())
 		out.probe("chunk_files_written", r.fs.Stats.Ops["rename"])
